@@ -435,6 +435,9 @@ def parseTaps (s : String) : Option (List (V × Nat)) :=
     | [v, n] => do pure (← V.parse v, ← n.toNat?)
     | _ => none)
 
+def optSlope (s : String) : Option (Option Classify.Slope) :=
+  if s == "none" then some none else (V.parse s).bind (fun v => (slopeOfCode v).map some)
+
 def mkInjected (kind : String) (kv : KV) : Option (St V) :=
   match kind with
   | "max" => do pure (.max (← kv.nat "N") { time := ← kv.nat "time", taps := ← (kv.get "taps").bind parseTaps })
@@ -465,6 +468,12 @@ def mkInjected (kind : String) (kv : KV) : Option (St V) :=
   -- the inner averages' own copies of the width (`mw`, `vw`) are not in the model: workloads that give them a
   -- different value reset the filter before they feed it
   | "emeanvar" => do pure (.emeanVar (← kv.val "w") { mean := ← kv.optVal "mean", var := ← kv.optVal "var" })
+  -- the classifiers' public states; the slope-driven detector's "previous slope" is its field `slope` (the nested slope
+  -- filter's memory, `mem`, is not read on that path)
+  | "peaks_slopes" => do pure (.peaksSlopes (← kv.vals "out") (← optSlope (← kv.get "prev")))
+  | "peaks" => do
+    pure (.peaks (← kv.vals "out") { prevInput := ← kv.optVal "prev", slope := ← optSlope (← kv.get "slope") })
+  | "slopes" => do pure (.slopes (← kv.vals "out") (← kv.optVal "input"))
   | _ => none
 
 /-! ### one line -/
@@ -637,12 +646,31 @@ def stepFilterOp (d : DState) (op : String) (toks impl : List String) : Option (
           | .kalman _ _ => [clauseEq "C06.textbook" y yi]
           | .integrate _ => [clauseEq "C15.running-sum" y yi]
           | .differentiate _ => [clauseEq "C15.first-difference" y yi]
+          -- the classifiers' steps are the property's own case tables on (state, sample): rising / falling against the
+          -- memorised sample; a maximum exactly when the state's slope is rising and this one falling
+          | .peaksSlopes _ _ => [clauseEq "C09.peaks-from-slopes" y yi]
+          | .peaks _ _ => [clauseEq "C09.peaks" y yi]
+          | .slopes _ _ => [clauseEq "C09.slopes" y yi]
           | _ => [])
         | none => []
       let clauses := clauses ++ stepClauses
       let d := (stepFlags inst.st st' hist).foldl DState.flag d
       let d := d.put id { inst with st := st', hist := hist, last := some implOut, own := true }
       some (report d op { model := renderOut (some y), impl := implS, clauses := clauses, kind := kindName inst.st })
+  | "fi" :: id :: args => do
+    -- the filter inside a cache wrapper fed directly (the wrapper taken apart and put together again): the inner filter
+    -- steps, what the wrapper remembers does not change
+    let id ← id.toNat?
+    let inst ← d.get id
+    let xs ← args.mapM V.parse
+    match inst.st with
+    | .cache i c =>
+      (match i.filter xs with
+       | some (i', y) =>
+         let d := (d.put id { inst with st := .cache i' c, hist := inst.hist ++ [xs] }).flag "cache.inner-fed"
+         some (report d op { model := renderOut (some y), impl := implS, kind := kindName inst.st })
+       | none => some (report d op { model := "PANIC", impl := implS, kind := kindName inst.st }))
+    | _ => none
   | ["sm", id] => do
     -- the state borrowed through `StateMut::state_mut` and let go of again: nothing changes
     let _ ← d.get (← id.toNat?)
@@ -677,6 +705,11 @@ def stepFilterOp (d : DState) (op : String) (toks impl : List String) : Option (
     let inst ← d.get id
     let d := (d.put id { st := inst.st.reset, hist := [], last := none, tracked := inst.tracked, lastCfg := inst.lastCfg }).flag "reset"
     some (report d op { model := "ok", impl := implS })
+  | ["clonep", id, _] => do
+    -- a clone attempted while an operation of the sample type panics (the copy, if any, dropped at once): the original is
+    -- only borrowed, nothing changes — what `live` reports afterwards is still what the models own
+    let _ ← d.get (← id.toNat?)
+    some (report (d.flag "clone-panic") op { model := implS, impl := implS })
   | ["clone", id, nid] => do
     let inst ← d.get (← id.toNat?)
     let d := (d.put (← nid.toNat?) { inst with own := false }).flag "clone"
